@@ -16,7 +16,7 @@ def case_digest(c):
     return json.dumps([c["tree"], c["ops"], c["comm"], c["intpos"]], sort_keys=True)
 
 
-def engine_suite(run, scratch, seed, n, oracle_fns=(), profile=None, name="engine_histories", known=()):
+def engine_suite(run, scratch, seed, n, oracle_fns=(), profile=None, name="engine_histories", known=(), keep=False):
     """random operation histories; raw state compared after every op; oracles on observed states.
     oracle_fns: list of (label, fn(case, state, mults) -> [failure strings])"""
     cases = engine_corr.prune_invalid(gen_engine.gen_cases(seed, n, profile), seed)
@@ -88,7 +88,8 @@ def engine_suite(run, scratch, seed, n, oracle_fns=(), profile=None, name="engin
                       found_input=found or True)
     samples = [{"name": c["name"], "tree": c["tree"], "ops": c["ops"][:8], "comm": c["comm"], "intpos": c["intpos"]}
                for c in cases[:2]]
-    return {"evaluations": len(cases), "distinct_nontrivial": len(nontrivial),
+    return {"_kept": [(c, ic) for c, v, d, ic, mc in res if ic] if keep else None,
+            "evaluations": len(cases), "distinct_nontrivial": len(nontrivial),
             "traces_validated_against_impl": tally["equal"] + tally["drift"], "bit_drift": tally["drift"],
             "disagreements": tally["diff"], "ops_executed": steps_total, "op_histogram": ops_hist,
             "final_status_histogram": err_hist, "oracle_evaluations": oracle_evals, "oracle_failures": oracle_fails,
@@ -99,7 +100,7 @@ def engine_suite(run, scratch, seed, n, oracle_fns=(), profile=None, name="engin
             "samples": samples}
 
 
-def backtest_suite(run, scratch, seed, n, name="backtest_runs", oracle_fns=(), known=(), gen=None):
+def backtest_suite(run, scratch, seed, n, name="backtest_runs", oracle_fns=(), known=(), gen=None, keep=False):
     """whole backtests (random stock-algo stacks, flat / nested / fixed-income trees); final raw state of every
     node incl. all history rows, the paper copies and the per-run temp traces compared with the model"""
     import backtest_corr
@@ -166,3 +167,153 @@ def backtest_suite(run, scratch, seed, n, name="backtest_runs", oracle_fns=(), k
                     "algos, 5 commission families, spreads, integer/fractional; non-trivial = completed run with at "
                     "least one trade, distinct by (tree, first dates)",
             "samples": [{"name": c["name"], "tree": c["tree"], "dates": c["dates"][:4]} for c in cases[:2]]}
+
+
+# ---------------------------------------------------------------- C05: allocation grid
+def comm_fee(comm, q, p):
+    k = comm[0]
+    if k == "none":
+        return 0.0
+    a = float.fromhex(comm[1])
+    if k == "flat":
+        return a
+    if k == "pershare":
+        return abs(q) * a
+    if k == "prop":
+        return abs(q) * p * a
+    b = float.fromhex(comm[2])
+    return max(a, abs(q) * b)
+
+
+def alloc_cases(seed, tier):
+    import itertools
+    import random
+    from gen_engine import hx
+    rng = random.Random(seed)
+    prices = [1.0, 12.5, 37.5, 100.0, 0.25]
+    mults = [1.0, 10.0]
+    priors = [0.0, 40.0, -40.0, 7.5]
+    comms = [["none"], ["flat", hx(2.0)], ["pershare", hx(0.015625)], ["prop", hx(0.0078125)], ["maxflat", hx(1.0), hx(0.0078125)]]
+    spreads = [0.0, 0.5]
+    amounts = [0.0, 1.0, 37.0, 500.0, 14246.0, 100000.25, -1.0, -37.0, -500.0, -6439.0, -100000.25, 3.0]
+    grid = list(itertools.product(prices, mults, priors, [True, False], comms, spreads, amounts))
+    if tier == "quick":
+        rng.shuffle(grid)
+        grid = grid[:1800]
+    for _ in range(600 if tier == "quick" else 40000):
+        grid.append((rng.randint(1, 1600) / 8.0, rng.choice(mults), rng.choice([0.0, 0.0, float(rng.randint(-300, 300))]),
+                     rng.random() < 0.5, rng.choice(comms), rng.choice([0.0, 0.25, 1.0]),
+                     rng.randint(-800000, 800000) / 4.0))
+    cases = []
+    for i, (p, m, prior, ip, comm, sp, amt) in enumerate(grid):
+        if sp >= p:
+            sp = p / 4
+        ops = [["adjust", [], hx(1e7), True, True, hx(0.0)], ["update", 0]]
+        if prior != 0.0:
+            ops.append(["transact", [1], hx(prior), None, True, None])
+            ops.append(["update", 0])
+        # exact close-out amounts now and then
+        if prior != 0.0 and i % 11 == 0:
+            amt = -(prior * p * m)
+        ops.append(["allocate", [1], hx(amt), None, True])
+        ops.append(["update", 0])
+        cases.append({"name": "a%06d" % i, "nrows": 2, "intpos": ip, "comm": comm, "prices": [[1, [hx(p), hx(p)]]],
+                      "bidoffer": [[1, [hx(sp), hx(sp)]]] if sp else None, "coupons": None, "cost_long": None,
+                      "cost_short": None, "tree": ["strat", 9, False, [["sec", 1, "sec", False, hx(m), False]]],
+                      "ops": ops, "_meta": {"p": p, "m": m, "prior": prior, "ip": ip, "sp": sp, "amt": amt}})
+    return cases
+
+
+def c05_oracle(c, ic):
+    """the property statement on one recorded allocation; -> (failure text or None, classification tag)"""
+    me = c["_meta"]
+    p, m, prior, ip, sp, amt = me["p"], me["m"], me["prior"], me["ip"], me["sp"], me["amt"]
+    k = len(c["ops"]) - 1           # step index of the allocate op (steps[0] is BUILD)
+    if len(ic["steps"]) <= k:
+        return None, "setup-error"
+    st = ic["steps"][k]["status"]
+    um = p * m
+
+    def cost(q):
+        return q * p * m + abs(q) * 0.5 * sp * m + comm_fee(c["comm"], q, p * m)
+    per_unit = cost(1.0) - um if c["comm"][0] not in ("flat", "maxflat") else abs(0.5 * sp * m) + (comm_fee(c["comm"], 1e9, um) / 1e9)
+    sane = per_unit < um
+    if st[1] == "err":
+        if st[2] in ("ESizingDiverged", "ESizingStuck", "ESizingLoop"):
+            return ("allocate(%r) raises %s (price %r, mult %r, prior %r, integer %r, comm %r, spread %r)"
+                    % (amt, st[2], p, m, prior, ip, c["comm"], sp)), ("K1" if sane else "insane-fee")
+        return "allocate raised %s" % st[2], "error"
+    state = ic["steps"][k]["state"]
+    pos = common.tok_val(state["r.1 scal"][0])
+    q = pos - prior
+    tol = 1e-7 + 1e-9 * abs(amt)
+    if amt == 0.0:
+        return (None if q == 0 else "zero amount traded %r" % q), "zero"
+    if abs(amt + prior * p * m) <= 1e-12 and prior != 0.0:
+        return (None if abs(pos) < 1e-12 else "close-out left position %r" % pos), "closeout"
+    if ip and abs(q - round(q)) > 1e-9:
+        return "whole-unit position traded a fractional quantity %r" % q, "integrality"
+    if q == 0:
+        # nothing traded: is that the largest admissible quantity?
+        if ip:
+            unit = 1.0 if amt > 0 else -1.0
+            if amt > 0 and cost(1.0) <= amt + tol:
+                return "nothing bought although one unit costs %r <= %r" % (cost(1.0), amt), "not-maximal"
+            if amt < 0:
+                return "nothing sold although %r must be raised" % (-amt), "K2"
+            return None, "none-affordable"
+        if amt > 0 and comm_fee(c["comm"], 1e-9, um) >= amt - 1e-12:
+            return None, "fixed-fee-exceeds-amount"      # no positive quantity fits: doing nothing is right
+        return "fractional position did not trade for amount %r" % amt, "not-traded"
+    cq = cost(q)
+    if cq > amt + tol:
+        tag = "K12" if abs(q + prior) < 1e-9 and prior != 0.0 else "over-budget"
+        return "cost %r exceeds the amount %r (q=%r)" % (cq, amt, q), tag
+    if not ip:
+        if abs(cq - amt) > tol:
+            return "fractional: cost %r != amount %r" % (cq, amt), "not-exact"
+        return None, "exact"
+    # integer: the largest quantity within the rule
+    if cost(q + 1.0) <= amt + 1e-12 and not (abs(q + 1.0 + prior) < 1e-9):
+        return "one more unit still fits: cost(q+1)=%r <= %r (q=%r)" % (cost(q + 1.0), amt, q), "not-maximal"
+    return None, "maximal"
+
+
+def alloc_suite(run, scratch, seed, tier, known_tags=("K1", "K2", "K12")):
+    cases = alloc_cases(seed, tier)
+    res = engine_corr.run_cases(cases, scratch, chunk=400)
+    tally, tags = {"equal": 0, "drift": 0, "diff": 0}, {}
+    first_diff = None
+    fails = 0
+    for c, v, d, ic, mc in res:
+        tally[v] = tally.get(v, 0) + 1
+        if v == "diff" and first_diff is None:
+            first_diff = (c, d)
+        if ic:
+            msg, tag = c05_oracle(c, ic)
+            tags[tag] = tags.get(tag, 0) + 1
+            if msg:
+                if tag in known_tags:
+                    run.known_seen.add("c05_" + tag)
+                    continue
+                if tag == "insane-fee":
+                    continue     # outside the property's quantifier (cost per unit not below the unit price)
+                fails += 1
+                if fails <= 3:
+                    cc = {k: v for k, v in c.items() if k != "_meta"}
+                    run.violation({"suite": "alloc_grid", "case": cc, "meta": c["_meta"], "oracle": "C05 budget", "failures": [msg]},
+                                  "C05 oracle fails on the implementation: " + msg)
+    if tally["diff"]:
+        c, d = first_diff
+        cc = {k: v for k, v in c.items() if k != "_meta"}
+        run.violation({"suite": "alloc_grid", "case": cc, "difference": d, "n_disagreeing_cases": tally["diff"],
+                       "broken": "correspondence alloc_grid (Engine.sec_allocate vs SecurityBase.allocate)"},
+                      "correspondence alloc_grid: implementation and model disagree on %d of %d allocations; first: %s"
+                      % (tally["diff"], len(cases), json.dumps(d)[:300]))
+    return {"evaluations": len(cases), "distinct_nontrivial": len({json.dumps(c["_meta"], sort_keys=True) for c in cases if c["_meta"]["amt"] != 0}),
+            "traces_validated_against_impl": tally["equal"] + tally["drift"], "bit_drift": tally["drift"],
+            "disagreements": tally["diff"], "outcome_histogram": tags, "oracle_failures": fails,
+            "rule": "product grid prices x multipliers x prior positions (flat/long/short/fractional) x integer|fractional x "
+                    "5 fee kinds x spreads x amounts of both signs (quick: 1800 sampled + 600 random dyadic points; thorough: "
+                    "all 9600 + 40000 random); exact close-out amounts mixed in; non-trivial = non-zero amount",
+            "samples": [{k: v for k, v in c.items() if k != "_meta"} for c in cases[:1]]}
